@@ -194,6 +194,9 @@ func RunC05(c *Ctx, r *Report) {
 	w.lengthSlotRule(r, prefix+"length-slots")
 	w.nestedDispatchRule(r, prefix+"nested-dispatch")
 	w.strideRule(r, prefix+"record-stride")
+	// a reference-built payload of type code K decodes to the payload type whose Type() is K
+	c.bijectionRule(r, prefix+"dispatch.ike", c.Method("message", "IKEPayloadContainer", "Decode"), "message", "IKEPayload", "Type", 16)
+	c.bijectionRule(r, prefix+"dispatch.eap", c.Method("eap", "EAP", "Unmarshal"), "eap", "EapTypeData", "Type", 5)
 	// constants, markers, reserved
 	ruleK := prefix + "constants-and-reserved"
 	r.Rule(ruleK, "the only wire bits the encoder sets to 1 by constant are the type octets of EAP methods and the 'more substructures follow' markers (2 for proposals, 3 for transforms, under 'not last'); reserved fields and the critical bit are never written", 20)
